@@ -253,6 +253,26 @@ Theorem elementwise_mul_eq_reference_partial :
     fst v <> 0 -> snd v <= 62 -> same_value v (tfl_mul_params p in1 in2 out) 0.
 Proof. exact ew_mul_eq_reference_lemma. Qed.
 
+(* Which TENSOR each programmed scale reaches (the triple of the property is per tensor).  ew_scale_mode is the hand
+   model of generate_scaling_for_elementwise's choice of IFM_PRECISION.scale_mode (advanced_elementwise_add_sub_scale's
+   op_to_scale, exchanged for reversed operands), tied by correspondence; ifm_gets_opa is the hardware reading of
+   (scale mode, operand order) from coq/hw/NpuExec.v.  For BOTH operand orders the 32-bit OPA pair reaches the IFM
+   exactly when the IFM has the smaller scale ... *)
+Theorem elementwise_add_sub_operand_choice :
+  forall ifm ifm2 rev, ifm_gets_opa (ew_scale_mode ifm ifm2 rev) rev = dy_ltb ifm ifm2.
+Proof. exact ew_operand_choice_lemma. Qed.
+
+(* ... and the tensor that is only shifted (an exact 1/2) is the one whose reference multiplier is exactly 1/2,
+   (2^30, 0).  With elementwise_add_sub_eq_reference_partial (the pair itself is the reference multiplier of the tensor
+   with the smaller scale) the effective per-tensor input multipliers equal the reference's for both orders. *)
+Theorem elementwise_add_sub_per_tensor_partial :
+  forall ifm ifm2 out ls rev, 0 < dm ifm -> 0 < dm ifm2 ->
+    let smode := ew_scale_mode ifm ifm2 rev in
+    let '(t1, t2, _) := tfl_add_params ifm ifm2 out ls in
+    (dy_ltb ifm ifm2 = true -> ifm_gets_opa smode rev = true /\ t2 = (2 ^ 30, 0)) /\
+    (dy_ltb ifm ifm2 = false -> ifm_gets_opa smode rev = false /\ t1 = (2 ^ 30, 0)).
+Proof. exact ew_per_tensor_lemma. Qed.
+
 (* ---- packed scale records of CONV_2D / DEPTHWISE_CONV_2D / FULLY_CONNECTED (weight_compressor) ---- *)
 (* PARTIAL in the same sense as the elementwise theorems (hand model of _prepare_scale_and_bias's float
    expression, tied by reading the records back from compiled networks: tools/checks/c09.py section G).
@@ -290,3 +310,5 @@ Print Assumptions elementwise_add_sub_eq_reference_partial.
 Print Assumptions elementwise_mul_eq_reference_partial.
 Print Assumptions conv_packed_eq_reference_partial.
 Print Assumptions conv_packed_reduced_eq_reference_partial.
+Print Assumptions elementwise_add_sub_operand_choice.
+Print Assumptions elementwise_add_sub_per_tensor_partial.
